@@ -296,6 +296,32 @@ pub fn run_rta(ctx: &mut Ctx) {
             emit_rta(ctx, p, &t, &[t.clone()], 0, 20, 8);
         }
     }
+    // enumerated EDF box with an earlier-deadline, dense interferer: the task under analysis stays pending for longer
+    // than the deadline difference, so the maximum sits at a deadline-shifted step offset A > 0 of the interferer
+    for p in ["edf_p", "edf_np", "edf_lp", "edf_fnp"] {
+        if !wanted(p) {
+            continue;
+        }
+        for t_o in [3u64, 5, 8] {
+            for c_o in [1u64, t_o / 2, t_o - 1] {
+                for d_o in [1u64, 3, t_o] {
+                    for c_t in [2u64, 5] {
+                        for dd in [1u64, 2, 4, 7] {
+                            for (li, last) in [1u64, c_t].iter().enumerate() {
+                                let j_o = if (t_o + c_o + dd) % 3 == 0 { 1 } else { 0 };
+                                let ot = json!({"a": {"k": "sporadic", "T": t_o, "J": j_o}, "c": {"k": "scalar", "c": c_o},
+                                                "C": c_o, "D": d_o, "seg": 1 + (c_o + dd) % c_o.max(1), "last": 1});
+                                let tua = json!({"a": {"k": "sporadic", "T": 50, "J": 0}, "c": {"k": "scalar", "c": c_t},
+                                                 "C": c_t, "D": d_o + dd, "seg": *last, "last": *last});
+                                let b = if p == "edf_p" { 0 } else { (li as u64 + dd) % 3 };
+                                emit_rta(ctx, p, &tua, &[ot], b, 60, 8);
+                            }
+                        }
+                    }
+                }
+            }
+        }
+    }
     // seeded random: 1-4 tasks, jitter, bursts, arbitrary cost models where the API allows
     let n = if ctx.thorough { 60000 } else { 6000 };
     let (tmax, limmax) = if ctx.thorough { (30, 150) } else { (12, 60) };
